@@ -105,3 +105,12 @@ class Timer:
 
     def s(self):
         return time.time() - self.t0
+
+
+def vlog(*a):
+    """progress/timing to stderr when VERIF_VERBOSE is set"""
+    if os.environ.get("VERIF_VERBOSE"):
+        print("[verif %.1fs]" % (time.time() - _T0), *a, file=sys.stderr, flush=True)
+
+
+_T0 = time.time()
